@@ -36,3 +36,12 @@ int verif_toupper(int c);
 #define tolower(c)	verif_tolower(c)
 #define toupper(c)	verif_toupper(c)
 #endif
+
+/* harness assertions: in the vacuity run (-DCANARY) every assertion site of the harness becomes a
+ * reachability canary that must FAIL, so a contract clause or stub assumption that silently blocks
+ * the branch an assertion sits in is reported as "vacuous" instead of letting the assertion pass */
+#ifdef CANARY
+#define H_ASSERT(c, m) __CPROVER_assert(0, "canary")
+#else
+#define H_ASSERT(c, m) __CPROVER_assert(c, m)
+#endif
